@@ -1,7 +1,10 @@
 //! Harness table: every entry is a Kani proof harness and a native replay
 //! target of the same name.
+use crate::ad::{self, ACfg};
 use crate::fob::{self, OCfg};
 use crate::fu::{self, UCfg};
+use crate::ja::{self, JCfg};
+use crate::mg::{self, MCfg, MUCfg};
 use crate::fub::{self, StepCfg};
 
 macro_rules! harness {
@@ -59,6 +62,24 @@ harness!(fob_poll_c2, fob::step_poll(&OCfg { cap: 2, max_parked: 1, selfwakes: 0
 harness!(fob_poll_c2_p2, fob::step_poll(&OCfg { cap: 2, max_parked: 2, selfwakes: 1 }));
 harness!(fob_push_c2, fob::step_push(&OCfg { cap: 2, max_parked: 1, selfwakes: 0 }));
 harness!(fob_new, fob::construct(2));
+// merges
+harness!(mb_poll_c2, mg::step_poll(&MCfg { cap: 2, selfwakes: 1, items: 1, quiet: false }));
+harness!(mb_poll_c2_quiet, mg::step_poll(&MCfg { cap: 2, selfwakes: 0, items: 1, quiet: true }));
+harness!(mu_poll_12_c0, mg::step_poll_unbounded(&MUCfg { caps: [1, 2], cursor: 0, selfwakes: 0, items: 1 }));
+harness!(mu_poll_12_c1, mg::step_poll_unbounded(&MUCfg { caps: [1, 2], cursor: 1, selfwakes: 0, items: 1 }));
+// buffered adapters
+harness!(ad_bu_n2, ad::step_buffer_unordered(&ACfg { n: 2, selfwakes: 0, parked: 0, max_remaining: 2 }));
+harness!(ad_bu_n1, ad::step_buffer_unordered(&ACfg { n: 1, selfwakes: 1, parked: 0, max_remaining: 2 }));
+harness!(ad_tbu_n2, ad::step_try_buffer_unordered(&ACfg { n: 2, selfwakes: 0, parked: 0, max_remaining: 2 }));
+harness!(ad_fe_n1, ad::step_for_each(&ACfg { n: 1, selfwakes: 0, parked: 0, max_remaining: 1 }));
+harness!(ad_fe_n2, ad::step_for_each(&ACfg { n: 2, selfwakes: 0, parked: 0, max_remaining: 1 }));
+harness!(ad_fe_n0, ad::step_for_each(&ACfg { n: 0, selfwakes: 0, parked: 0, max_remaining: 1 }));
+harness!(ad_bo_n2, ad::step_buffered_ordered(&ACfg { n: 2, selfwakes: 0, parked: 1, max_remaining: 2 }, false));
+harness!(ad_bo_n2_p0, ad::step_buffered_ordered(&ACfg { n: 2, selfwakes: 0, parked: 0, max_remaining: 2 }, false));
+harness!(ad_tbo_n2, ad::step_buffered_ordered(&ACfg { n: 2, selfwakes: 0, parked: 1, max_remaining: 2 }, true));
+// join_all / try_join_all
+harness!(ja_poll_n2, ja::step_join_all(&JCfg { n: 2, selfwakes: 0 }));
+harness!(tja_poll_n2, ja::step_try_join_all(&JCfg { n: 2, selfwakes: 0 }));
 harness!(x_probe_rebase, fob::probe_rebase());
 harness!(x_fob_p0, fob::step_poll(&OCfg { cap: 1, max_parked: 0, selfwakes: 0 }));
 harness!(x_fob_p1, fob::step_poll(&OCfg { cap: 1, max_parked: 1, selfwakes: 0 }));
@@ -85,6 +106,21 @@ pub fn table() -> &'static [(&'static str, fn())] {
         ("fob_poll_c2_p2", fob_poll_c2_p2),
         ("fob_push_c2", fob_push_c2),
         ("fob_new", fob_new),
+        ("ja_poll_n2", ja_poll_n2),
+        ("tja_poll_n2", tja_poll_n2),
+        ("ad_bu_n2", ad_bu_n2),
+        ("ad_bu_n1", ad_bu_n1),
+        ("ad_tbu_n2", ad_tbu_n2),
+        ("ad_fe_n2", ad_fe_n2),
+        ("ad_fe_n1", ad_fe_n1),
+        ("ad_fe_n0", ad_fe_n0),
+        ("ad_bo_n2", ad_bo_n2),
+        ("ad_bo_n2_p0", ad_bo_n2_p0),
+        ("ad_tbo_n2", ad_tbo_n2),
+        ("mb_poll_c2", mb_poll_c2),
+        ("mb_poll_c2_quiet", mb_poll_c2_quiet),
+        ("mu_poll_12_c0", mu_poll_12_c0),
+        ("mu_poll_12_c1", mu_poll_12_c1),
         ("x_probe_rebase", x_probe_rebase),
         ("fu_poll_12_c1", fu_poll_12_c1),
         ("fu_poll_12_c2", fu_poll_12_c2),
